@@ -196,7 +196,8 @@ theorem send_rb_op (r : RunSt) (payload : Bytes) (hg : C03.Good r.st) (hz : Z r.
     (hlen : Tty.readBackLen payload ≤ (pending r.st).length)
     (hnd : deathOf (obsOp (.send payload true none false) r).1.res = none) :
     (obsOp (.send payload true none false) r).1.res = .unit
-    ∧ (sizesOf (obsOp (.send payload true none false) r).1).sum = Tty.readBackLen payload := by
+    ∧ (sizesOf (obsOp (.send payload true none false) r).1).sum = Tty.readBackLen payload
+    ∧ Z (obsOp (.send payload true none false) r).2.st := by
   have hcons := consumed r (.send payload true none false) hg rfl
   have hsnd : (obsOp (.send payload true none false) r).2.st = (send payload true none false (C03.cut r.st)).2 := by
     rw [obsOp_snd]
@@ -208,28 +209,29 @@ theorem send_rb_op (r : RunSt) (payload : Bytes) (hg : C03.Good r.st) (hz : Z r.
   have hpc : pending (C03.cut r.st) = pending r.st := rfl
   -- the value of `send`
   have hmain : (send payload true none false (C03.cut r.st)).1 = .ok ()
-      ∧ (pending (send payload true none false (C03.cut r.st)).2).length + Tty.readBackLen payload = (pending r.st).length := by
+      ∧ (pending (send payload true none false (C03.cut r.st)).2).length + Tty.readBackLen payload = (pending r.st).length
+      ∧ Z (send payload true none false (C03.cut r.st)).2 := by
     unfold send
     split
     · rename_i he
       have : payload = [] := by simpa using he
       subst this
-      exact ⟨rfl, by simp [readBackLen_nil, hpc]⟩
+      exact ⟨rfl, by simp [readBackLen_nil, hpc], hz⟩
     · split
       · rename_i _ h
         simp only [Bool.not_false, Bool.true_and] at h
         have : forbidden (C03.cut r.st).blacklist payload = forbidden r.st.blacklist payload := rfl
         rw [this, hnf] at h; simp at h
       · rename_i hne _
-        obtain ⟨_, hok, hhang, hnt, hnfuel⟩ := sendLoop_rb (payload.length + 1) payload false (C03.cut r.st).now (C03.cut r.st)
+        obtain ⟨hzz, hok, hhang, hnt, hnfuel⟩ := sendLoop_rb (payload.length + 1) payload false (C03.cut r.st).now (C03.cut r.st)
           (by omega) hz hg.cut.wf hg.cut.chunk hg.cut.slice hg.cut.slow
         obtain ⟨recs, ws, _, _, _, _, _, herr⟩ := C03.sendLoop_spec (payload.length + 1) payload true none false
           (C03.cut r.st).now (C03.cut r.st) (by omega) hg.cut.slice hg.cut.wf hg.cut.chunk hg.cut.slow
         cases hsl : sendLoop (payload.length + 1) payload true none false (C03.cut r.st).now (C03.cut r.st) with
         | mk res s' =>
-          rw [hsl] at hok hhang hnt hnfuel herr
+          rw [hsl] at hok hhang hnt hnfuel herr hzz
           cases res with
-          | ok u => exact ⟨rfl, by rw [← hpc]; exact hok rfl⟩
+          | ok u => exact ⟨rfl, by rw [← hpc]; exact hok rfl, hzz⟩
           | error e =>
             exfalso
             rcases herr e rfl with ⟨_, _, h2⟩ | h | h | ⟨x, m, h⟩
@@ -250,7 +252,7 @@ theorem send_rb_op (r : RunSt) (payload : Bytes) (hg : C03.Good r.st) (hz : Z r.
               simp only [Bool.false_eq_true, if_false] at hnd
               rw [hsl] at hnd
               simp [ofUnit, deathOf] at hnd
-  refine ⟨?_, ?_⟩
+  refine ⟨?_, ?_, ?_⟩
   · rw [hresv]
     cases hs : send payload true none false (C03.cut r.st) with
     | mk res s' =>
@@ -262,8 +264,148 @@ theorem send_rb_op (r : RunSt) (payload : Bytes) (hg : C03.Good r.st) (hz : Z r.
     rw [hsnd] at h3
     have h4 := congrArg List.length h3
     simp only [List.length_drop] at h4
-    have := hmain.2
+    have := hmain.2.1
     have h1 := hcons.1
     omega
+  · rw [hsnd]; exact hmain.2.2
+
+theorem sendline_eq_send (b : Bytes) (rb : Bool) (t : Option Nat) (r : RunSt) :
+    obsOp (.sendline b rb t) r = obsOp (.send (b ++ [13]) rb t false) r := rfl
+
+/-! ### operations that only open or close a `with` block -/
+
+def structOp : Op → Bool
+  | .deathEnter _ _ | .deathExit | .streamEnter _ _ | .streamExit => true
+  | _ => false
+
+theorem struct_script (r : RunSt) (op : Op) (h : structOp op = true) :
+    (obsOp op r).2.st.script = r.st.script ∧ (obsOp op r).2.st.now = r.st.now := by
+  cases op <;> simp [structOp] at h
+  · simp [obsOp, runOp, streamEnter]
+  · simp only [obsOp, runOp]
+    cases r.streams with
+    | nil => exact ⟨rfl, rfl⟩
+    | cons x xs => obtain ⟨id, prev⟩ := x; exact ⟨rfl, rfl⟩
+  · simp [obsOp, runOp, deathEnter]
+  · simp only [obsOp, runOp]
+    cases r.deaths with
+    | nil => exact ⟨rfl, rfl⟩
+    | cons x xs => exact ⟨rfl, rfl⟩
+
+theorem struct_z (r : RunSt) (op : Op) (h : structOp op = true) (hz : Z r.st) : Z (obsOp op r).2.st := by
+  intro p hp
+  rw [(struct_script r op h).1] at hp
+  exact hz p hp
+
+theorem struct_pending (r : RunSt) (op : Op) (h : structOp op = true) : pending (obsOp op r).2.st = pending r.st := by
+  simp only [pending, (struct_script r op h).1]
+
+/-! ### the read that ends a command, and the exit status -/
+
+theorem honly_of (p w : Bytes) (h : NoEarly p w true) :
+    ∀ k, 0 < k → k ≤ w.length → p <:+ w.take k → k = w.length := by
+  intro k _ hk hs
+  obtain ⟨x, hx⟩ := hs
+  have hw : w = x ++ p ++ w.drop k := by rw [hx, List.take_append_drop]
+  have hd := (h.only x _ hw).2
+  have := congrArg List.length hd
+  simp only [List.length_drop, List.length_nil] at this
+  omega
+
+/-- `read_until_prompt()` on a stream that ends with the prompt and does not contain it earlier:
+    for every fragmentation it returns the text before the prompt and consumes everything -/
+theorem rup_exact (r : RunSt) (ps1 w : Bytes) (hg : C03.Good r.st) (h0 : Rel0 r)
+    (hpr : r.st.prompt = some (.lit ps1)) (hp : ps1 ≠ []) (hw : pending r.st = w) (hne : NoEarly ps1 w true) :
+    (obsOp (.rup none none) r).1.res = .text (text (w.take (w.length - ps1.length)))
+    ∧ (sizesOf (obsOp (.rup none none) r).1).sum = w.length
+    ∧ (obsOp (.rup none none) r).2.st.script = [] := by
+  have hfr := C02.rup_fragmentation_gen ps1 w hp (hne.fin rfl) (honly_of ps1 w hne) (C03.cut r.st) hpr
+    (rel0_deaths h0) hg.cut.wf hg.cut.chunk hw none (Or.inl rfl)
+  have hcons := consumed r (.rup none none) hg rfl
+  have hres : (obsOp (.rup none none) r).1.res = .text (text (w.take (w.length - ps1.length))) := by
+    rw [obsOp_res]
+    simp only [runOp, C05.cutR]
+    cases hr : readUntilPrompt none none (C03.cut r.st) with
+    | mk res s' =>
+      rw [hr] at hfr
+      cases res with
+      | ok v => obtain ⟨b, full⟩ := v; simp only at hfr; simp only [Except.ok.injEq, Prod.mk.injEq] at hfr; rw [hfr.1.1]
+      | error e => simp at hfr
+  have hscr : (obsOp (.rup none none) r).2.st.script = [] := by
+    rw [obsOp_snd]
+    simp only [runOp, C05.cutR]
+    cases hr : readUntilPrompt none none (C03.cut r.st) with
+    | mk res s' =>
+      rw [hr] at hfr
+      cases res with
+      | ok v => obtain ⟨b, full⟩ := v; exact hfr.2
+      | error e => simp at hfr
+  refine ⟨hres, ?_, hscr⟩
+  have h3 := hcons.2.2
+  have hp0 : pending (obsOp (.rup none none) r).2.st = [] := by simp [pending, hscr]
+  rw [hp0, hw] at h3
+  have h4 := congrArg List.length h3
+  simp only [List.length_drop, List.length_nil] at h4
+  have h1 := hcons.1
+  rw [hw] at h1
+  omega
+
+theorem rel_load {m : DeathMon} {r : RunSt} (sizes : List Nat) (extra : Bytes) (h : C05.Rel m r) :
+    C05.Rel m (load sizes extra r) :=
+  ⟨h.deaths, h.frames, h.next, h.inv⟩
+
+theorem rel0_load {r : RunSt} (sizes : List Nat) (extra : Bytes) (h : Rel0 r) : Rel0 (load sizes extra r) := by
+  obtain ⟨m, hr, hm⟩ := h
+  exact ⟨m, rel_load sizes extra hr, hm⟩
+
+/-- `posix_fetch_return_code` on a channel in sync: the status, exactly, for every fragmentation -/
+theorem fetchRc_exact (c : Case) (sizes : List Nat) (st : Nat) (hst : st < 256) (r : RunSt)
+    (hg : C03.Good r.st) (h0 : Rel0 r) (hpr : r.st.prompt = some (.lit (prompt c)))
+    (hbl : r.st.blacklist = blacklist c) (hpend : pending r.st = []) :
+    (fetchRc sizes (Shell.respStatus false (prompt c) st) r).1 = .ok st
+    ∧ (fetchRc sizes (Shell.respStatus false (prompt c) st) r).2.1.sum = (Shell.respStatus false (prompt c) st).length
+    ∧ (fetchRc sizes (Shell.respStatus false (prompt c) st) r).2.2.st.script = [] := by
+  generalize hr1 : load sizes (Shell.respStatus false (prompt c) st) r = r1
+  have hg1 : C03.Good r1.st := by rw [← hr1]; exact load_good _ _ _ hg
+  have hz1 : Z r1.st := by rw [← hr1]; exact load_z _ _ _
+  have h01 : Rel0 r1 := by rw [← hr1]; exact rel0_load _ _ h0
+  have hpr1 : r1.st.prompt = some (.lit (prompt c)) := by rw [← hr1]; exact hpr
+  have hbl1 : r1.st.blacklist = blacklist c := by rw [← hr1]; exact hbl
+  have hp1 : pending r1.st = Shell.respStatus false (prompt c) st := by
+    rw [← hr1, load_pending, hpend, List.nil_append]
+  have hecho : (Tty.echo false (Shell.echoStatusLine ++ [Tty.CR])).length = Tty.readBackLen (Shell.echoStatusLine ++ [13]) :=
+    Tty.echo_length_noctl _
+  -- sendline "echo $?" with read-back
+  have hstep2 := rel0_step r1 (.send (Shell.echoStatusLine ++ [13]) true none false) h01 rfl
+  have hsend := send_rb_op r1 (Shell.echoStatusLine ++ [13]) hg1 hz1 (by rw [hbl1]; exact echoStatus_allowed c)
+    (by rw [hp1, respStatus_eq, List.length_append, hecho]; omega) hstep2.2
+  have hk2 := ChanCase.keeps r1 (.send (Shell.echoStatusLine ++ [13]) true none false) hg1 rfl
+  have hc2 := consumed r1 (.send (Shell.echoStatusLine ++ [13]) true none false) hg1 rfl
+  generalize ho2 : obsOp (.send (Shell.echoStatusLine ++ [13]) true none false) r1 = out2 at hstep2 hsend hk2 hc2
+  obtain ⟨o2, r2⟩ := out2
+  simp only at hstep2 hsend hk2 hc2
+  have hp2 : pending r2.st = Tty.cook (Shell.statusBytes st ++ [Tty.LF]) ++ prompt c := by
+    rw [hc2.2.2, hsend.2.1, hp1, respStatus_eq, ← hecho, List.drop_left']
+    rfl
+  have hpr2 : r2.st.prompt = some (.lit (prompt c)) := by
+    have := congrArg Cfg.prompt hk2.cfg
+    simpa [Cfg.ofRun, Cfg.step, hpr1] using this
+  have htab := status_table c.ash st hst
+  have hps : (if c.ash then Params.ashPrompt else Params.bashPrompt) = prompt c := rfl
+  rw [hps] at htab
+  have hne := noEarly_of _ _ _ htab.1
+  have hrup := rup_exact r2 (prompt c) _ hk2.good hstep2.1 hpr2 (prompt_ne c) hp2 hne
+  unfold fetchRc
+  rw [hr1, sendline_eq_send, ho2]
+  simp only [hsend.1]
+  generalize ho3 : obsOp (.rup none none) r2 = out3 at hrup
+  obtain ⟨o3, r3⟩ := out3
+  simp only at hrup ⊢
+  rw [hrup.1]
+  simp only [List.length_append, Nat.add_sub_cancel, List.take_left', htab.2]
+  refine ⟨trivial, ?_, hrup.2.2⟩
+  rw [List.sum_append, hsend.2.1, hrup.2.1, respStatus_eq]
+  simp only [List.length_append]
+  rw [hecho]
 
 end Run
